@@ -6,7 +6,7 @@ EXTENDS Overlap, TLC, Json, IOUtils
 Traces == JsonDeserialize(IOEnv.TRACE_FILE)
 
 VARIABLES tid, l, verdict, clause
-tvars == <<order, pend, st, cfg, idx, ackC, ackX, tid, l, verdict, clause>>
+tvars == <<order, pend, st, cfg, idx, ackC, ackX, mustTell, tid, l, verdict, clause>>
 
 Tr == Traces[tid].ev
 Ev == Tr[l]
@@ -23,7 +23,7 @@ Act ==
       [] Ev.e = "xclose"  -> Quiet(Ev.d)
       [] Ev.e = "sclosed" -> ServerClose(Ev.c, Ev.d)
       [] Ev.e = "init"    -> InitEcho(Ev.c, Ev.rep, Ev.d)
-      [] Ev.e = "control" -> Quiet(Ev.d)
+      [] Ev.e = "control" -> Told(Ev.c, Ev.d)
       [] Ev.e = "reply"   -> Reply(Ev.c, Ev.kind, Ev.out, Ev.res, Ev.d)
       [] Ev.e = "probe"   -> Probe(Ev.rep, Ev.d)
       [] Ev.e = "psearch" -> ProbeSearch(Ev.out, Ev.res, Ev.d)
@@ -41,6 +41,7 @@ Why ==
     IF ~DiskOK(Ev.d) THEN DiskWhy(Ev.d)
     ELSE IF Ev.e = "reply" THEN
          IF ~Serialised(Ev.c) THEN "Serialised"
+         ELSE IF ~ToldToWait(Ev.c) THEN "ToldToWait"
          ELSE IF ~Fifo(Ev.c, Ev.kind) THEN "Fifo"
          ELSE IF ~OutOK(Ev.kind, Ev.out) THEN "Outcome"
          ELSE IF ~AckOnce(Ev.c, Ev.kind, Ev.out) THEN "AckOnce"
@@ -55,10 +56,10 @@ Why ==
 Running == verdict = "run" /\ l <= Len(Tr)
 Step == Running /\ Act /\ l' = l + 1 /\ UNCHANGED <<tid, verdict, clause>>
 Finish == /\ verdict = "run" /\ l = Len(Tr) + 1
-          /\ verdict' = "ACCEPT" /\ UNCHANGED <<order, pend, st, cfg, idx, ackC, ackX, tid, l, clause>>
+          /\ verdict' = "ACCEPT" /\ UNCHANGED <<order, pend, st, cfg, idx, ackC, ackX, mustTell, tid, l, clause>>
 Reject == /\ Running /\ ~ENABLED Step
           /\ verdict' = "REJECT" /\ clause' = Why
-          /\ UNCHANGED <<order, pend, st, cfg, idx, ackC, ackX, tid, l>>
+          /\ UNCHANGED <<order, pend, st, cfg, idx, ackC, ackX, mustTell, tid, l>>
 
 TraceInit == OvInit /\ tid \in 1..Len(Traces) /\ l = 1 /\ verdict = "run" /\ clause = ""
 TraceNext == Step \/ Finish \/ Reject
